@@ -229,3 +229,55 @@ def order_rule(ctx, rep, rid="ORDER"):
                           "stale text" % (kind, what, show(text, 200)), site(b, cs["Cache::analyze"][0][0]))
     if found < 3:
         raise MissingAnchor("lelwel-ls: expected handlers for didOpen, didChange, didClose; found %d" % found)
+
+
+def same_pipeline_rule(ctx, rep, rid="SAME"):
+    rep.rule(rid, "DOM+PROV: the language server analyses a document with the same pipeline as the command-line check: in both `compile` and "
+                  "`ide::analyze` the calls Parser::new -> Parser::parse -> SemanticPass::run occur in this dominance order on the document text and "
+                  "collect into one diagnostics vector, and the diagnostics the server publishes are mapped from that very vector")
+    from .lexrules import _base_var
+    lib = ctx.lelwel()
+    for fname in ("compile", "ide::analyze"):
+        bs = [b for b in lib.find(fname) if b.name == fname]
+        if len(bs) != 1:
+            raise MissingAnchor("%s not found" % fname)
+        b = bs[0]
+        pr = P(b)
+        cs = {}
+        for pt, name, decl, args, t in calls(b):
+            for tail in ("frontend::parser::Parser::new", "frontend::parser::Parser::parse", "frontend::sema::SemanticPass::run"):
+                if name.endswith(tail):
+                    cs.setdefault(tail, []).append((pt, t))
+        order = ["frontend::parser::Parser::new", "frontend::parser::Parser::parse", "frontend::sema::SemanticPass::run"]
+        if any(len(cs.get(o, [])) != 1 for o in order):
+            rep.violation(rid, "%s|pipeline-calls" % fname, "%s: expected exactly one call each of Parser::new, Parser::parse and SemanticPass::run, found %s"
+                          % (fname, {o.split("::")[-2] + "::" + o.split("::")[-1]: len(cs.get(o, [])) for o in order}))
+            continue
+        blocks = [cs[o][0][0][0] for o in order]
+        if not (b.dominates(blocks[0], blocks[1]) and b.dominates(blocks[1], blocks[2])):
+            rep.violation(rid, "%s|pipeline-order" % fname, "%s: lexing/parsing and the semantic pass are not executed in the order new -> parse -> run on every path" % fname,
+                          site(b, cs[order[2]][0][0]))
+            continue
+        dvars = set()
+        for o in order:
+            t = cs[o][0][1]
+            dvars.add(_base_var(b, t["args"][-1]))
+        if len(dvars) != 1 or None in dvars:
+            rep.violation(rid, "%s|one-vector" % fname, "%s: the three stages do not collect their diagnostics into one vector (%s)" % (fname, sorted(str(d) for d in dvars)),
+                          site(b, cs[order[2]][0][0]))
+            continue
+        dv = dvars.pop()
+        rep.ok(rid, "%s: Parser::new -> parse -> SemanticPass::run, all into `%s`" % (fname, dv))
+        if fname == "ide::analyze":
+            # the PublishDiagnostics notification is built from an iterator over that vector
+            ok = False
+            for pt, name, decl, args, t in calls(b):
+                if _is_call(t, SEND) and _variant_of(pr.operand(t["args"][1]), "ide::Notification") == "PublishDiagnostics":
+                    # look for a slice::iter / Deref call in this arm whose receiver is the vector
+                    for pt2, n2, d2, a2, t2 in calls(b):
+                        if (n2.endswith("slice::iter") or n2.endswith("Deref>::deref") or n2.endswith("Vec::iter")) and b.dominates(pt2[0], pt[0]) and t2["args"] and _base_var(b, t2["args"][0]) == dv:
+                            ok = True
+            if ok:
+                rep.ok(rid, "ide::analyze: the published diagnostics are mapped from `%s`" % dv)
+            else:
+                rep.violation(rid, "ide::analyze|published-from", "ide::analyze: the PublishDiagnostics reply is not built from the vector the pipeline filled (`%s`)" % dv)
